@@ -196,6 +196,9 @@ def oracle(case, out):
             return (f"{tag}:outlet-cell-without-valid-pixels", f"cell {i} outlet {o}; {ctx}")
         if method != "ihu" and own != i:
             return (f"{tag}:outlet-outside-own-cell", f"cell {i} outlet {o} lies in cell {own}; {ctx}")
+    for i, d in enumerate(cds):
+        if d >= 0 and cds[d] < 0:
+            return (f"{tag}:open-link", f"coarse cell {i} drains into coarse cell {d}, which has no data / no outlet pixel; {ctx} cds={cds}")
     if not nets.is_loopfree(cds):
         return (f"{tag}:loop", f"coarse network has a loop {cds}; {ctx}")
     for i, d in enumerate(cds):
